@@ -150,7 +150,7 @@ MM = {
             lemma_step_closure(&b0, s, fr, fc, end_pair, m.2, MoveGenerationMode::AllMoves);
         }
     }""" % {'FRM': FRM},
-    'expect': {'loops': [], 'returns': 0},
+    'expect': {'loops': []},
 }
 P = ('C04', 'C05')
 
